@@ -6,7 +6,7 @@ func extraRules() []*Rule {
 	out = append(out, rulesLocks()...)
 	out = append(out, rulesTables()...)
 	out = append(out, rulesStorage()...)
-	out = append(out, ruleLifecycle(), ruleHeartbeat(), ruleRecordOffset(), ruleFollowerLookup(), ruleOffsetOwner())
+	out = append(out, ruleLifecycle(), ruleHeartbeat(), ruleRecordOffset(), ruleFollowerLookup(), ruleOffsetOwner(), ruleSendLabel())
 	return out
 }
 
@@ -35,6 +35,8 @@ func extraSpecs() []*PropertySpec {
 		{ID: "C04", Rules: []string{"LOG-WSP", "RESTORE-COVER"}, Decided: "the bundled log syncs before publishing an append; restore rebuilds term, vote, log, snapshot boundary and configuration from disk"},
 		{ID: "C08", Rules: []string{"RESTORE-COVER"}, Thorough: []string{"STATE-ATOMIC"}, Decided: "restore reloads currentTerm and votedFor from results #0/#1 of StateStorage.State()"},
 		{ID: "C10", Rules: []string{"RESTORE-COVER"}, Decided: "restore takes lastApplied, commitIndex and the snapshot boundary from the metadata of the very file handed to StateMachine.Restore"},
+		{ID: "C10", Rules: []string{"SEND-LABEL"}, Decided: "a snapshot request is labelled with the metadata of the very file whose bytes it carries, not with the node's boundary"},
+		{ID: "C11", Rules: []string{"SEND-LABEL"}, Decided: "a snapshot request is labelled with the metadata of the very file whose bytes it carries"},
 		{ID: "C11", Rules: []string{"COMPACT-KEEP"}, Decided: "Compact keeps the boundary entry as placeholder plus the suffix, DiscardEntries leaves exactly the placeholder, LastIndex/LastTerm/NextIndex read the last element"},
 		{ID: "C15", Rules: []string{"CHUNK-BOUND", "HEARTBEAT"}, Decided: "the bytes of one InstallSnapshot request are bounded by the chunk constant, itself below the 4 MiB gRPC limit (one known finding D15); heartbeats go to every member on every tick of a non-follower; the election timeout is re-randomised per iteration"},
 		{ID: "C19", Rules: []string{"CHUNK-BOUND", "RECORD-OFFSET"}, Decided: "snapshot payloads cross the transport in bounded chunks (one known finding D15)"},
@@ -72,8 +74,8 @@ func extraSpecs() []*PropertySpec {
 		},
 		{
 			ID:         "C15",
-			Rules:      []string{"LEADER-APPEND", "AE-HANDLER", "SENDER"},
-			Decided:    "only necessary conditions of progress: a new leader appends a no-op of its term (so committedThisTerm can become true), every rejection carries the back-off hint and the leader uses it, the snapshot hand-shake advances only on Done at the expected offset and re-seeks otherwise",
+			Rules:      []string{"LEADER-APPEND", "AE-HANDLER", "SENDER", "IS-HANDLER"},
+			Decided:    "only necessary conditions of progress: a new leader appends a no-op of its term (so committedThisTerm can become true), every rejection carries the back-off hint and the leader uses it, the snapshot hand-shake advances only on Done at the expected offset and re-seeks otherwise, and the receiver of a snapshot never returns (or parks in a wait) after publishing the snapshot without having moved its boundary to the label (otherwise the re-sent tail restarts the transfer for ever)",
 			NotDecided: "any bound, any 'eventually': liveness under a timing assumption is not decidable statically (observations O2, O4, O6 in DESIGN.md are liveness defects out of static reach)",
 		},
 		{
